@@ -28,7 +28,13 @@ fn node_b<I: Interface + 'static>(own: u16, link: I, handlers: &[&[u64]], remain
     let mut ids = vec![]; let mut idmap = std::collections::HashMap::new();
     for h in handlers {
         let label = h[0]; let lg = log.clone();
-        let hb: Box<dyn FnMut(&Packet, &mut Protocol<'static, I>)> = Box::new(move |p: &Packet, _proto: &mut Protocol<'static, I>| { lg.borrow_mut().push((label, p.clone())); });
+        // mode 1: transmit a fixed packet to another device on every invocation; mode 2: forward the packet (unless addressed to this node)
+        let mode = if h.len() > 3 { h[3] } else { 0 };
+        let hb: Box<dyn FnMut(&Packet, &mut Protocol<'static, I>)> = Box::new(move |p: &Packet, proto: &mut Protocol<'static, I>| {
+            lg.borrow_mut().push((label, p.clone()));
+            if mode == 1 { let q = Packet { is_error: false, device_address: own ^ 1, data: vec![0xab, label as u8] }; if q.device_address != own { let _ = proto.send_packet(&q); } }
+            if mode == 2 && p.device_address != own { let _ = proto.send_packet(p); }
+        });
         let id = proto.add_packet_handler(hb, h[1] != 0).map(|x| x as u64).unwrap_or(0xffff_ffff);
         ids.push(id); idmap.insert(label, id);
     }
@@ -67,7 +73,7 @@ pub fn exec_e2e(case: &[u64]) -> L {
             let mut rx = std::collections::VecDeque::new();
             for (j, f) in st.borrow().tx.iter().enumerate() { for _ in 0..gap_at(gaps, j) { rx.push_back(CanTok::WouldBlock); } rx.push_back(CanTok::Frame(f.clone())); }
             let n = rx.len();
-            let sb = Rc::new(RefCell::new(CanSt { rx, accept_all: true, ..Default::default() }));
+            let sb = Rc::new(RefCell::new(CanSt { rx, accept_all: true, ans: (0..600).map(|i| if i % 3 == 2 { 0 } else { 1 }).collect(), ..Default::default() }));
             let (ids, rb, en) = node_b(own_b, Can::new(ross_protocol::interface::can::verif_sim::Can::new(CanDev(sb.clone()))), &hs, &|| sb.borrow().rx.len(), &|| sb.borrow_mut().spins = 0, n + 2);
             (ra, ids, rb, en)
         }
@@ -77,7 +83,7 @@ pub fn exec_e2e(case: &[u64]) -> L {
             let mut rx = std::collections::VecDeque::new();
             for (i, b) in st.borrow().tx.iter().enumerate() { for _ in 0..gap_at(gaps, i) { rx.push_back(256u16); } rx.push_back(*b as u16); }
             let n = rx.len();
-            let sb = Rc::new(RefCell::new(UsartSt { rx, accept_all: true, ..Default::default() }));
+            let sb = Rc::new(RefCell::new(UsartSt { rx, accept_all: true, ans: (0..4000).map(|i| (i % 2 == 0) as u8).collect(), ..Default::default() }));
             let (ids, rb, en) = node_b(own_b, Usart::new(UsartDev(sb.clone())), &hs, &|| sb.borrow().rx.len(), &|| sb.borrow_mut().spins = 0, n + 2);
             (ra, ids, rb, en)
         }
@@ -115,14 +121,17 @@ pub fn gen_e2e(r: &mut Rng, thorough: bool, cx: &mut Ctx) {
             let gaps: Vec<u64> = match k % 5 { 0 => vec![], 1 => vec![1], 2 => vec![0, 0, 2], 3 => (0..r.range(1, 7)).map(|_| r.below(3)).collect(), _ => vec![0, 0, 0, 0, 3] };
             let mut l = vec![link, own_a as u64, own_b as u64, gaps.len() as u64]; l.extend(&gaps);
             let nh = r.below(5); l.push(nh);
-            for i in 0..nh { l.push(3); l.push(700 + i); l.push(r.chance(1, 3) as u64); l.push(r.chance(1, 4) as u64); }
+            for i in 0..nh { l.push(4); l.push(700 + i); l.push(r.chance(1, 3) as u64); l.push(r.chance(1, 4) as u64); l.push(match r.below(4) { 0 => 1, 1 => 2, _ => 0 }); }
             let ne = r.range(1, 8); l.push(ne);
+            let mut prev: Option<L> = None;
             for _ in 0..ne {
+                // the same event twice in a row, now and then
+                if let Some(pe) = prev.clone() { if r.chance(1, 4) { l.push(pe.len() as u64); l.extend(pe); continue; } }
                 let kind = r.below(16);
                 let md = if r.chance(1, 40) { 2400 } else if r.chance(1, 6) { 300 } else { 24 }; let mut e = gen_event(r, kind, md);
                 // steer the receiver address: B's own address, broadcast, A's own address, or elsewhere
                 if kind != 1 && kind != 5 { e[1] = match r.below(6) { 0 | 1 | 2 => own_b as u64, 3 => 0xffff, 4 => own_a as u64, _ => r.u16b() }; }
-                l.push(e.len() as u64); l.extend(e);
+                l.push(e.len() as u64); l.extend(e.clone()); prev = Some(e);
             }
             cx.emit(&l);
         }
